@@ -17,9 +17,9 @@ import (
 //
 //	enum Color { RED GREEN BLUE }            (internal values "R","G","B")
 //	input Pt { x: Int = 7, y: Int }
-//	interface Node { id: Int  kind: String }
+//	interface Node { id: Int  kind: String  owner: Person }
 //	type Item implements Node { id kind name(prefix: String, sep: String): String tags(first: Int): [String] next: Item owner: Person }
-//	type Person implements Node { id kind nick(suffix: String): String }
+//	type Person implements Node { id kind nick(suffix: String): String owner: Person }
 //	union Thing = Item | Person
 //	input Nest { p: Pt, l: [Int], ps: [Pt], ll: [[Int]] }
 //	type Query { tag echo(s,i,f,b,l,e,o,id) mut(o: Pt, l: [Int], ll: [[Int]], os: [Pt], n: Nest) item(id) items(n, from) node(id) things(n) fail(msg) }
@@ -86,7 +86,9 @@ func newSchema(tag string) *graphql.Schema {
 	}
 	var itemT, personT *graphql.Object
 	node := graphql.NewInterface(graphql.InterfaceConfig{Name: "Node",
-		Fields: graphql.Fields{"id": &graphql.Field{Type: graphql.Int}, "kind": &graphql.Field{Type: graphql.String}},
+		Fields: graphql.FieldsThunk(func() graphql.Fields {
+			return graphql.Fields{"id": &graphql.Field{Type: graphql.Int}, "kind": &graphql.Field{Type: graphql.String}, "owner": &graphql.Field{Type: personT}}
+		}),
 		ResolveType: func(p graphql.ResolveTypeParams) *graphql.Object {
 			if _, ok := p.Value.(item); ok {
 				return itemT
@@ -100,14 +102,18 @@ func newSchema(tag string) *graphql.Schema {
 		return "~"
 	}
 	personT = graphql.NewObject(graphql.ObjectConfig{Name: "Person", Interfaces: []*graphql.Interface{node},
-		Fields: graphql.Fields{
-			"id":   &graphql.Field{Type: graphql.Int, Resolve: func(p graphql.ResolveParams) (interface{}, error) { return idOf(p.Source), nil }},
-			"kind": &graphql.Field{Type: graphql.String, Resolve: func(p graphql.ResolveParams) (interface{}, error) { return tag + ":person", nil }},
-			"nick": &graphql.Field{Type: graphql.String, Args: graphql.FieldConfigArgument{"suffix": &graphql.ArgumentConfig{Type: graphql.String}},
-				Resolve: func(p graphql.ResolveParams) (interface{}, error) {
-					return fmt.Sprintf("%s:p%d%s", tag, idOf(p.Source), strArg(p, "suffix")), nil
-				}},
-		}})
+		Fields: graphql.FieldsThunk(func() graphql.Fields {
+			return graphql.Fields{
+				"id":   &graphql.Field{Type: graphql.Int, Resolve: func(p graphql.ResolveParams) (interface{}, error) { return idOf(p.Source), nil }},
+				"kind": &graphql.Field{Type: graphql.String, Resolve: func(p graphql.ResolveParams) (interface{}, error) { return tag + ":person", nil }},
+				"nick": &graphql.Field{Type: graphql.String, Args: graphql.FieldConfigArgument{"suffix": &graphql.ArgumentConfig{Type: graphql.String}},
+					Resolve: func(p graphql.ResolveParams) (interface{}, error) {
+						return fmt.Sprintf("%s:p%d%s", tag, idOf(p.Source), strArg(p, "suffix")), nil
+					}},
+				// a composite field that the interface has too (family abstractMerge): whoever a person belongs to
+				"owner": &graphql.Field{Type: personT, Resolve: func(p graphql.ResolveParams) (interface{}, error) { return person{idOf(p.Source)*10 + 1}, nil }},
+			}
+		})})
 	itemT = graphql.NewObject(graphql.ObjectConfig{Name: "Item", Interfaces: []*graphql.Interface{node},
 		Fields: graphql.FieldsThunk(func() graphql.Fields {
 			return graphql.Fields{
@@ -235,9 +241,9 @@ func schemaDesc() *gq.SchemaDesc {
 		{Kind: "ENUM", Name: "Color", Values: []gq.EnumValDesc{{Name: "RED", Internal: "R"}, {Name: "GREEN", Internal: "G"}, {Name: "BLUE", Internal: "B"}}},
 		{Kind: "INPUT_OBJECT", Name: "Pt", InputFields: []gq.ArgDesc{ad("x", "Int", 7), a("y", "Int")}},
 		{Kind: "INPUT_OBJECT", Name: "Nest", InputFields: []gq.ArgDesc{a("p", "Pt"), a("l", "[Int]"), a("ps", "[Pt]"), a("ll", "[[Int]]")}},
-		{Kind: "INTERFACE", Name: "Node", ResolveType: true, Fields: []gq.FieldDesc{{Name: "id", Type: "Int"}, {Name: "kind", Type: "String"}}},
+		{Kind: "INTERFACE", Name: "Node", ResolveType: true, Fields: []gq.FieldDesc{{Name: "id", Type: "Int"}, {Name: "kind", Type: "String"}, {Name: "owner", Type: "Person"}}},
 		{Kind: "OBJECT", Name: "Person", Interfaces: []string{"Node"}, Fields: []gq.FieldDesc{
-			{Name: "id", Type: "Int"}, {Name: "kind", Type: "String"}, {Name: "nick", Type: "String", Args: []gq.ArgDesc{a("suffix", "String")}}}},
+			{Name: "id", Type: "Int"}, {Name: "kind", Type: "String"}, {Name: "nick", Type: "String", Args: []gq.ArgDesc{a("suffix", "String")}}, {Name: "owner", Type: "Person"}}},
 		{Kind: "OBJECT", Name: "Item", Interfaces: []string{"Node"}, Fields: []gq.FieldDesc{
 			{Name: "id", Type: "Int"}, {Name: "kind", Type: "String"},
 			{Name: "name", Type: "String", Args: []gq.ArgDesc{a("prefix", "String"), a("sep", "String")}},
@@ -519,6 +525,26 @@ func families() [][]poolEntry {
 				V("v", []interface{}{"a b"}), V("v", []interface{}{"a", "b"}), nil),
 			ev("dedupeCollision", `query Q($p: Pair) { a: coll(p: $p) b: coll(p: {a: "1", b: "2"}) c: coll(p: {a: "1 b:2"}) }`, true, []string{"Q"},
 				V("p", map[string]interface{}{"a": "1 b:2"}), nil),
+		},
+		{ // abstractMerge: ONE plan executed against DIFFERENT DATA. node(id) is a Person for odd and an Item for even ids, things(n)
+			// mixes both; the id comes from a variable (or, through a normalising cache, from a literal that became one), so one
+			// cached / held plan meets both runtime types. A fragment on the interface and inline fragments on its members select
+			// the same response key (`owner`, `next`) with different sub-selections: what is merged below the key depends on the
+			// concrete parent type, and whatever the plan prepares lazily for one type must not be served to the other. Also: one
+			// fragment spread at two places, one of which is only reached for one runtime type; variable-driven directives (control).
+			ev("abstractMerge", `query Q($x: Int) { node(id: $x) { kind ...F ... on Item { owner { nick } } } } fragment F on Node { owner { id } }`, true, []string{"Q"}, V("x", 1), V("x", 2), V("x", 1), nil),
+			ev("abstractMerge", `query Q($x: Int) { node(id: $x) { kind ...F ... on Person { owner { nick } } } } fragment F on Node { owner { id } }`, true, []string{"Q"}, V("x", 2), V("x", 1), V("x", 4)),
+			ev("abstractMerge", `query Q($x: Int) { node(id: $x) { ...F ... on Item { owner { nick(suffix: "!") } } ... on Person { owner { kind owner { nick } } } } } fragment F on Node { owner { id owner { id } } }`, true, []string{"Q"}, V("x", 1), V("x", 2), V("x", 3)),
+			ev("abstractMerge", `query Q($x: Int, $y: Int) { a: node(id: $x) { ...F ... on Item { owner { nick } } } b: node(id: $y) { ...F ... on Person { owner { kind } } } } fragment F on Node { owner { id } }`, true, []string{"Q"},
+				V("x", 1, "y", 1), V("x", 2, "y", 2), V("x", 1, "y", 2), V("x", 2, "y", 1)),
+			ev("abstractMerge", `query Q($n: Int) { things(n: $n) { ... on Node { ...F } ... on Item { owner { nick } } } } fragment F on Node { owner { id } }`, true, []string{"Q"}, V("n", 1), V("n", 3), V("n", 0)),
+			ev("abstractMerge", `query Q($x: Int) { a: node(id: $x) { ... on Item { ...G } } b: item(id: 2) { ...G next { kind } } } fragment G on Item { next { id } }`, true, []string{"Q"}, V("x", 1), V("x", 2), V("x", 3)),
+			ev("abstractMerge", `query Q($x: Int) { a: node(id: $x) { ... on Item { ...G } } b: item(id: 2) { ...G next { kind } } } fragment G on Item { next { id tags } }`, true, []string{"Q"}, V("x", 2), V("x", 1)),
+			e("abstractMerge", `{ node(id: 1) { kind ...F ... on Item { owner { nick } } } } fragment F on Node { owner { id } }`, true),
+			e("abstractMerge", `{ node(id: 2) { kind ...F ... on Item { owner { nick } } } } fragment F on Node { owner { id } }`, true),
+			e("abstractMerge", `{ node(id: 3) { kind ...F ... on Item { owner { nick } } } } fragment F on Node { owner { id } }`, true),
+			ev("abstractMerge", `query Q($x: Int, $v: Boolean!) { node(id: $x) { ...F ... on Item @include(if: $v) { owner { nick } } } } fragment F on Node { owner { id } }`, true, []string{"Q"},
+				V("x", 1, "v", true), V("x", 2, "v", true), V("x", 2, "v", false), V("x", 1, "v", false)),
 		},
 		{ // rejected requests: parse errors, validation errors, wrong literal types (errors are cached too)
 			e("invalid", `{ nope }`, true), e("invalid", `{ nope2 }`, true), e("invalid", `{`, true), e("invalid", `{ tag `, true),
